@@ -26,6 +26,7 @@ Records (whitespace tokens):
   drat <tag> <cnf> <proof>         -> the lemmas form a RUP refutation ending in the empty clause (Check/Rup.lean)
   maxsat <tag> <softs> <cost> v*   -> model satisfies the hard clauses, has that cost, and the cost is optimal
   same <tag> a b                   -> two observations that must be identical
+  litdefs <n>                      -> the first n constraints of the model define literals of predicates
   drcp <kind> <obj> <lits> :: steps -> the proof file is a valid DRCP certificate (Check/DrcpCheck.lean)
   drcpw <step> :: <text>           -> the real writer's line equals the model's rendering and reads back
   drcpr ok <step>|err :: <text>    -> the real reader's verdict / result equals the model's
@@ -39,8 +40,6 @@ import Pumpkin.Model.Branching
 import Pumpkin.Model.Drcp
 import Pumpkin.Model.Dimacs
 import Pumpkin.Model.ImplicitReason
-import Pumpkin.Model.Lits
-import Pumpkin.Model.SemMin
 import Pumpkin.Check.Rup
 import Pumpkin.Check.MaxSat
 import Pumpkin.Check.DrcpCheck
@@ -51,6 +50,8 @@ open Pumpkin Driver
 structure St where
   model : Model := { doms := [], cons := [] }
   sols : List (List Int) := []
+  /-- number of leading constraints of the model which define literal variables (`litdefs <n>`) -/
+  nd : Nat := 0
 
 def chunk (n : Nat) : Nat → List Int → List (List Int)
   | 0, _ => []
@@ -144,6 +145,14 @@ def respond (st : St) (line : String) : St × Option String :=
       let st' := setModel m
       (st', some s!"model nvars={m.doms.length} nprod={(product m.doms).length} nsol={st'.sols.length}")
     | _ => (st, some "FAIL model unparsed")
+  | ["litdefs", n] =>
+    -- the first n constraints of the model are definitions `r ↔ p` of literals of predicates
+    match n.toNat? with
+    | some k =>
+      if k ≤ st.model.cons.length && (Pumpkin.DrcpCheck.defsOf st.model k).all (isDef st.model.doms) then
+        ({ st with nd := k }, some s!"ok litdefs {k}")
+      else (st, some "FAIL litdefs not-definitions")
+    | none => (st, some "FAIL litdefs unparsed")
   | "addcons" :: rest =>
     match pCons rest with
     | some (c, []) =>
@@ -306,7 +315,7 @@ def respond (st : St) (line : String) : St × Option String :=
               | _ => false
             (st, some (if ok then s!"ok drcp scaffold steps={steps.length}" else s!"FAIL drcp scaffold-without-empty-nogood-or-conclusion"))
           else
-            match Pumpkin.DrcpCheck.checkDrcp st.model lits obj steps with
+            match Pumpkin.DrcpCheck.checkDrcp st.model st.nd lits obj steps with
             | .unsat => (st, some (if st.sols.isEmpty then s!"ok drcp unsat steps={steps.length}" else "FAIL drcp accepted-unsat-proof-of-satisfiable-model"))
             | .bound b => (st, some s!"ok drcp bound={b} steps={steps.length}")
             | .stepsValid x b =>
@@ -321,7 +330,7 @@ def respond (st : St) (line : String) : St × Option String :=
                 match ss with
                 | [] => "conclusion"
                 | s :: rest =>
-                  match Pumpkin.DrcpCheck.stepCheck st.model lits obj stc s with
+                  match Pumpkin.DrcpCheck.stepCheck st.model st.nd lits obj stc s with
                   | some stc' => firstBad stc' rest (i + 1)
                   | none => s!"step#{i + 1}:{repr s}"
               (st, some s!"FAIL drcp rejected at {firstBad {} steps 0}")
@@ -442,61 +451,6 @@ def respond (st : St) (line : String) : St × Option String :=
            | .panicked => "err panicked"
        if model == impl then (st, some s!"ok wcnf {(model.splitOn " ").take 2}")
        else (st, some s!"FAIL wcnf model=[{model}] impl=[{impl}]"))
-  | "litsfile" :: n :: rest =>
-    -- `litsfile <n> b1 … bn :: <result of the real LiteralDefinitions::parse>`: exact correspondence
-    -- with Model/Lits (the map keeps the last definition of a code; reported in code order)
-    (match n.toNat? with
-     | none => (st, some "FAIL litsfile unparsed")
-     | some k =>
-       let bytes := (rest.take k).filterMap String.toNat?
-       let impl := " ".intercalate (rest.drop (k + 1))
-       if bytes.length != k || (rest.drop k).head? != some "::" then (st, some "FAIL litsfile unparsed") else
-       let name := fun (bs : List Nat) => String.ofList (bs.map Char.ofNat)
-       let model := match Pumpkin.Lits.parseFile bytes with
-         | none => "err"
-         | some defs =>
-           -- last definition per code wins, then sort by code
-           let dedup := defs.foldl (fun acc d => (acc.filter (fun e => e.1 != d.1)) ++ [d]) ([] : List (Nat × List Pumpkin.Lits.Atomic))
-           let sorted := dedup.mergeSort (fun a b => a.1 ≤ b.1)
-           sorted.foldl (fun acc d =>
-             acc ++ s!" {d.1} {d.2.length}" ++ d.2.foldl (fun a at_ =>
-               a ++ (match at_ with
-                 | .int nm c v => s!" i {name nm} " ++ (match c with | .ge => "ge" | .le => "le" | .eq => "eq" | .ne => "ne") ++ s!" {v}"
-                 | .bool nm v => s!" b {name nm} {v}")) "") "ok"
-       if model == impl then (st, some s!"ok litsfile {(model.splitOn " ").take 1}")
-       else (st, some s!"FAIL litsfile model=[{model}] impl=[{impl}]"))
-  | "semmin" :: mergeTok :: rest =>
-    -- `semmin <merge 0|1> <n> <input atoms> :: (false | <k> <output atoms>)`: exact correspondence of
-    -- the real SemanticMinimiser::minimise with Model/SemMin (as sets of predicates; the original
-    -- domains are the declared domains of the current model)
-    (match (do
-        let (inp, r1) ← pList pAtom rest
-        match r1 with
-        | "::" :: "false" :: _ => pure (inp, (none : Option (List Atom)))
-        | "::" :: r2 =>
-          let (outp, _) ← pList pAtom r2
-          pure (inp, some outp)
-        | _ => none) with
-     | none => (st, some "FAIL semmin unparsed")
-     | some (inp, impl) =>
-       let origOf := fun (x : Nat) =>
-         match st.model.doms[x]? with
-         | some (v :: vs) =>
-           let lo := vs.foldl min v
-           let hi := vs.foldl max v
-           let holes := ((List.range (hi - lo + 1).toNat).map (fun (i : Nat) => lo + (i : Int))).filter (fun z => !(v :: vs).contains z)
-           (⟨lo, hi, holes, false⟩ : Pumpkin.SemMin.SD)
-         | _ => ⟨0, 0, [], false⟩
-       let model := Pumpkin.SemMin.minimise origOf inp (mergeTok == "1")
-       let one := fun (a : Atom) => match a with
-         | .ge x v => s!"ge:{x}:{v}" | .le x v => s!"le:{x}:{v}" | .ne x v => s!"ne:{x}:{v}" | .eq x v => s!"eq:{x}:{v}"
-       let norm := fun (l : List Atom) => (l.map one).mergeSort (fun a b => a ≤ b)
-       let shown := fun (l : List Atom) => ",".intercalate (norm l)
-       match model, impl with
-       | none, none => (st, some "ok semmin false")
-       | some m, some i => if norm m == norm i then (st, some "ok semmin") else (st, some s!"FAIL semmin model={shown m} impl={shown i}")
-       | none, some i => (st, some s!"FAIL semmin model=false impl={shown i}")
-       | some m, none => (st, some s!"FAIL semmin model={shown m} impl=false"))
   | "implicit" :: rest =>
     -- `implicit <trail atom> <queried atom> <n> <reason atoms>`: exact correspondence with
     -- Model/ImplicitReason (the reason the real conflict analysis derived for a predicate that is
